@@ -17,6 +17,10 @@ class Reject(Exception):
     """The abstract operation is undefined on the ghost state (missing key, inadmissible argument)."""
 
 
+class Unspecified(Exception):
+    """The statement does not say what this call does in this state: the rest of the history is not explored."""
+
+
 def canon_obs(x):
     """Canonical json-able form; lists that are multisets must be pre-sorted by the adaptor."""
     if isinstance(x, dict):
@@ -79,6 +83,9 @@ class Explorer:
                 rejected = False
             except Reject:
                 rejected = True
+            except Unspecified:
+                ctx.count("histories cut at an unspecified call")
+                break
             fn = ad.function_of(op)
             try:
                 r = ad.apply_real(real, op)
@@ -120,6 +127,17 @@ class Explorer:
             if observe_every or step == len(history) - 1:
                 if not self.compare(real, ghost, inp, rep):
                     return False
+            if step == len(history) - 1:
+                # queries and derivations must not change the object: observing twice gives the same answers
+                o1 = ad.observe_real(real, ghost)
+                o2 = ad.observe_real(real, ghost)
+                if o1 != o2:
+                    diff = [k for k in o1 if o1.get(k) != o2.get(k)][:5]
+                    ctx.check(False, f"{ad.name}.queries", "queries and derivations leave the object unchanged", inp,
+                              expected={k: canon_obs(o1.get(k)) for k in diff}, observed={k: canon_obs(o2.get(k)) for k in diff},
+                              key=f"{ad.name}:queries-modify-object", replay=rep)
+                    return False
+                ctx.clause(f"{ad.name}:queries and derivations leave the object unchanged")
         ctx.case(dict(cls=ad.name, config=config, history=history), nontrivial=changed)
         return ok_all
 
